@@ -268,6 +268,16 @@ fn reader_thread(mut s: TcpStream, sh: Arc<ClientShared>) {
     });
 }
 
+extern "C" {
+    fn setsockopt(fd: i32, level: i32, name: i32, val: *const [i32; 2], len: u32) -> i32;
+}
+/// SO_LINGER {on, 0 s}: close() then sends RST instead of FIN (Linux: SOL_SOCKET = 1, SO_LINGER = 13)
+fn set_linger0(s: &TcpStream) {
+    use std::os::unix::io::AsRawFd;
+    let v = [1i32, 0i32];
+    unsafe { setsockopt(s.as_raw_fd(), 1, 13, &v, 8) };
+}
+
 fn big_req_bytes(id: usize, seq: usize) -> Vec<u8> {
     format!("POST /g/{id}/{seq} HTTP/1.1\r\ncontent-length: 100000\r\n\r\n").into_bytes()
 }
@@ -501,6 +511,20 @@ pub fn srv_case(toks: &[String]) -> (String, bool) {
                     let base = cl.frozen;
                     wait_for(|| sh.responses.load(SeqCst) > base, STEP_DEADLINE);
                     shut(cl);
+                }
+                ("reset", Some(Ph::Handler)) => {
+                    // client aborts mid-request with a RESET and no FIN before it (SO_LINGER 0 close of the only
+                    // descriptor); the handler keeps running for a while: the slot stays taken that long
+                    if let Some(s) = cl.stream.take() {
+                        let _ = s.shutdown(Shutdown::Read); // wakes the reader thread, sends nothing
+                        let sh = cl.sh.clone();
+                        wait_for(|| sh.eof.load(SeqCst), STEP_DEADLINE);
+                        std::thread::sleep(Duration::from_millis(3));
+                        set_linger0(&s);
+                        drop(s);
+                    }
+                    std::thread::sleep(Duration::from_millis(150));
+                    release(k, GateCmd::Ok);
                 }
                 (_, Some(Ph::Handler)) => {
                     // client aborts mid-request: goes away, then the handler returns
